@@ -50,6 +50,9 @@ func buildWorker(race bool) string {
 		out = filepath.Join(root, "bin", "worker.race.test")
 		args = []string{"test", "-c", "-race", "-tags", "verif", "-o", out, "./sim"}
 	}
+	if mf := os.Getenv("VERIF_MODFLAG"); mf != "" {
+		args = append([]string{args[0], mf}, args[1:]...)
+	}
 	c := goCmd(args...)
 	b, err := c.CombinedOutput()
 	if err != nil {
@@ -310,9 +313,13 @@ type replayFile struct {
 }
 
 func gitRev() string {
-	c := exec.Command("git", "-C", "/repo", "rev-parse", "--short", "HEAD")
+	repo := "/repo"
+	if v := os.Getenv("VERIF_REPO"); v != "" {
+		repo = v
+	}
+	c := exec.Command("git", "-C", repo, "rev-parse", "--short", "HEAD")
 	b, _ := c.Output()
-	d := exec.Command("git", "-C", "/repo", "status", "--porcelain")
+	d := exec.Command("git", "-C", repo, "status", "--porcelain")
 	db, _ := d.Output()
 	s := strings.TrimSpace(string(b))
 	if len(bytes.TrimSpace(db)) > 0 {
